@@ -284,6 +284,78 @@ def run(ctx):
         "adjacency_tensor indexes by label (one-symbol exemption: the property restricts the tensor to hypergraphs on nodes 0..N-1)",
         "LabelEncoder: transform maps labels to 0..N-1 in sorted label order, classes_ is that order, inverse_transform is its inverse (library summary)",
     ]
+    # ---- N-DTYPE: the binary incidence is built as uint8 (hye_list_to_binary_incidence).  Products and sums of it count hyperedges;
+    #      in uint8 they wrap at 256.  A matrix that may still be the raw uint8 incidence (no multiplication by weights, no astype)
+    #      never enters `@` / `.dot` / `.sum`
+    with res.guard("N-DTYPE"):
+        res.rules["N-DTYPE"] = "no matrix product / sum is taken over a matrix that may still be the raw uint8 binary incidence (counts above 255 wrap around)"
+        lin = [g for g in ctx.prog.functions.values() if g.module.relpath in ("hypergraphx/linalg/linalg.py",) or g.module.relpath.startswith("hypergraphx/linalg/_")]
+        PASS = ("tocsr", "tocoo", "tocsc", "transpose", "copy", "T")
+
+        def strip_pass(e):
+            while True:
+                if isinstance(e, ast.Call) and isinstance(e.func, ast.Attribute) and e.func.attr in PASS and not e.args:
+                    e = e.func.value
+                elif isinstance(e, ast.Attribute) and e.attr == "T":
+                    e = e.value
+                else:
+                    return e
+
+        raw = set()
+        for g in lin:
+            for r in ast.walk(g.node):
+                if isinstance(r, ast.Call) and any(k.arg == "dtype" and norm(k.value) in ("np.uint8", "numpy.uint8", "np.bool_", "bool", "np.int8", "np.uint16", "np.int16") for k in r.keywords) and any(isinstance(x, ast.Return) and any(y is r for y in ast.walk(x)) for x in ast.walk(g.node)):
+                    raw.add(g.qualname)
+
+        def origin_raw(gv, e, depth=0):
+            """`e` may evaluate to the result of a raw-uint8 producer, untouched"""
+            e = strip_pass(e)
+            if isinstance(e, ast.Call):
+                return any(c.qualname in raw for c in ctx.callees(gv.fi, e))
+            if isinstance(e, ast.IfExp):
+                return origin_raw(gv, e.body, depth) or origin_raw(gv, e.orelse, depth)
+            if isinstance(e, ast.Name) and depth < 4:
+                for a in walk_no_nested(gv.fi.node):
+                    if isinstance(a, ast.Assign):
+                        for t in a.targets:
+                            if isinstance(t, ast.Name) and t.id == e.id and origin_raw(gv, a.value, depth + 1):
+                                return True
+                            if isinstance(t, ast.Tuple) and t.elts and isinstance(t.elts[0], ast.Name) and t.elts[0].id == e.id and origin_raw(gv, a.value, depth + 1):
+                                return True
+            return False
+
+        grew = True
+        while grew:
+            grew = False
+            for g in lin:
+                if g.qualname in raw:
+                    continue
+                gv = ctx.view(g)
+                for r in walk_no_nested(g.node):
+                    if isinstance(r, ast.Return) and r.value is not None:
+                        vals = r.value.elts[:1] if isinstance(r.value, ast.Tuple) else [r.value]
+                        if any(origin_raw(gv, x) for x in vals):
+                            raw.add(g.qualname)
+                            grew = True
+        n_prod = 0
+        for g in lin:
+            gv = ctx.view(g)
+            for b in walk_no_nested(g.node):
+                ops = []
+                if isinstance(b, ast.BinOp) and isinstance(b.op, ast.MatMult):
+                    ops = [b.left, b.right]
+                elif isinstance(b, ast.Call) and isinstance(b.func, ast.Attribute) and b.func.attr in ("dot", "sum") :
+                    ops = [b.func.value] + (list(b.args) if b.func.attr == "dot" else [])
+                if not ops:
+                    continue
+                n_prod += 1
+                bad = [o for o in ops if origin_raw(gv, o)]
+                if bad:
+                    res.violation("N-DTYPE", g.short, norm(b)[:100], norm(bad[0])[:40], f"`{norm(bad[0])[:40]}` may still be the raw uint8 incidence matrix here (on some path it was neither multiplied by the weights nor converted): the product / sum counts hyperedges in uint8, so a pair of nodes that shares 256 or more hyperedges (or a node with such a degree) gets its count modulo 256", loc(g, b))
+        if n_prod:
+            res.ok("N-DTYPE", "linalg", f"{n_prod} products / sums examined; raw-uint8 producers: {len(raw)}", "scan", "hypergraphx/linalg/linalg.py")
+    with res.guard("M-SHAPE"):
+        check_incidence_shape(ctx, res)
     with res.guard("general lint pack over the property's files"):
         from ..lints import check_pack
 
@@ -332,3 +404,27 @@ def _row_ordered(v, src):
         if isinstance(x, ast.Call) and isinstance(x.func, ast.Attribute) and x.func.attr in ("values", "items", "keys"):
             return "violation", f"the diagonal is taken from {norm(x)}: dict insertion order, not row order"
     return "unknown", "unrecognised construction of the diagonal"
+
+
+def check_incidence_shape(ctx, res, rule="M-SHAPE"):
+    """binary_incidence_matrix builds the N x E incidence of a hypergraph: N is the number of NODES of the hypergraph, not the largest
+    row index that occurs in a hyperedge.  The shape handed to hye_list_to_binary_incidence cannot be None (None lets the helper
+    infer N from the hyperedges, so isolated nodes whose labels sort last lose their rows)."""
+    from ..kinds import Union, only_none
+
+    def can_be_none(k):
+        return only_none(k) or (isinstance(k, Union) and any(only_none(m) for m in k.members))
+
+    res.rules[rule] = "the incidence matrix of a hypergraph is built with shape (num_nodes, num_edges) on every path (never with the shape inferred from the hyperedges)"
+    fi = ctx.require("linalg.binary_incidence_matrix")
+    n = 0
+    for cf in ctx.interp.callfacts:
+        if cf.caller.qualname != fi.qualname or cf.callee.name != "hye_list_to_binary_incidence":
+            continue
+        n += 1
+        if "shape" not in cf.bound:
+            res.violation(rule, fi.short, norm(cf.node)[:100], "shape-given", "hye_list_to_binary_incidence is called without a shape: N is inferred as (largest row index in a hyperedge) + 1, so isolated nodes that sort after every connected node have no row", loc(fi, cf.node))
+        else:
+            res.check(not can_be_none(cf.bound["shape"]), rule, fi.short, norm(cf.node)[:100], "shape-given", "the shape handed to hye_list_to_binary_incidence can be None here (a parameter that defaults to None is forwarded as it is): the helper then infers N from the hyperedges, and isolated nodes whose labels sort last lose their rows - HypergraphMT / HySC take N and the isolated nodes from this matrix", loc(fi, cf.node))
+    if n == 0:
+        res.unknown(rule, fi.short, "hye_list_to_binary_incidence(..., shape)", "shape-given", "the construction of the incidence matrix was not recognised", loc(fi, fi.node))
